@@ -49,10 +49,19 @@ func init() {
 	externModels["(*math/big.Int).Add"] = bigBin(func(a, b string) string { return app("+", a, b) })
 	externModels["(*math/big.Int).Sub"] = bigBin(func(a, b string) string { return app("-", a, b) })
 	externModels["(*math/big.Int).Mul"] = bigBin(mulTerm)
-	externModels["(*math/big.Int).Div"] = bigBin(func(a, b string) string { return app("ediv", a, b) })
-	externModels["(*math/big.Int).Mod"] = bigBin(func(a, b string) string { return app("emod", a, b) })
-	externModels["(*math/big.Int).Quo"] = bigBin(func(a, b string) string { return app("go_div", a, b) })
-	externModels["(*math/big.Int).Rem"] = bigBin(func(a, b string) string { return app("go_mod", a, b) })
+	// the four divisions panic on a zero divisor
+	bigDiv := func(what string, op func(a, b string) string) externModel {
+		m := bigBin(op)
+		return func(ex *Exec, fr *Frame, callee *ssa.Function, args []Val, st *State, k CallCont) {
+			y := ex.bigOperand(fr, st, args[2])
+			ex.obligation(fr, st, "nopanic", "division by zero in (*big.Int)."+what, not(app("=", y.S, "0")), true)
+			m(ex, fr, callee, args, st, k)
+		}
+	}
+	externModels["(*math/big.Int).Div"] = bigDiv("Div", func(a, b string) string { return app("ediv", a, b) })
+	externModels["(*math/big.Int).Mod"] = bigDiv("Mod", func(a, b string) string { return app("emod", a, b) })
+	externModels["(*math/big.Int).Quo"] = bigDiv("Quo", func(a, b string) string { return app("go_div", a, b) })
+	externModels["(*math/big.Int).Rem"] = bigDiv("Rem", func(a, b string) string { return app("go_mod", a, b) })
 	externModels["(*math/big.Int).Neg"] = bigUn(func(a string) string { return app("-", a) })
 	externModels["(*math/big.Int).Abs"] = bigUn(func(a string) string { return ite(app(">=", a, "0"), a, app("-", a)) })
 	externModels["(*math/big.Int).Set"] = bigUn(func(a string) string { return a })
@@ -153,6 +162,28 @@ func init() {
 		b := ex.toTerm(st, args[1], nil)
 		ex.obligation(fr, st, "nopanic", "division by zero in NewRat", not(app("=", b.S, "0")), true)
 		k(st, ex.newBigCell(st, Term{app("/", app("to_real", a.S), app("to_real", b.S)), SReal}, true), false)
+	}
+	// SetFrac(a, b) panics when b is zero
+	externModels["(*math/big.Rat).SetFrac"] = func(ex *Exec, fr *Frame, callee *ssa.Function, args []Val, st *State, k CallCont) {
+		a := ex.bigOperand(fr, st, args[1])
+		b := ex.bigOperand(fr, st, args[2])
+		ex.obligation(fr, st, "nopanic", "division by zero in (*big.Rat).SetFrac", not(app("=", b.S, "0")), true)
+		ex.ratAssign(fr, st, args[0], Term{app("/", app("to_real", a.S), app("to_real", b.S)), SReal})
+		k(st, args[0], false)
+	}
+	// Quo(x, y) panics when y is zero; Inv(x) when x is
+	externModels["(*math/big.Rat).Quo"] = func(ex *Exec, fr *Frame, callee *ssa.Function, args []Val, st *State, k CallCont) {
+		x := ex.ratOperand(fr, st, args[1])
+		y := ex.ratOperand(fr, st, args[2])
+		ex.obligation(fr, st, "nopanic", "division by zero in (*big.Rat).Quo", not(app("=", y.S, "0.0")), true)
+		ex.ratAssign(fr, st, args[0], Term{app("/", x.S, y.S), SReal})
+		k(st, args[0], false)
+	}
+	externModels["(*math/big.Rat).Inv"] = func(ex *Exec, fr *Frame, callee *ssa.Function, args []Val, st *State, k CallCont) {
+		x := ex.ratOperand(fr, st, args[1])
+		ex.obligation(fr, st, "nopanic", "division by zero in (*big.Rat).Inv", not(app("=", x.S, "0.0")), true)
+		ex.ratAssign(fr, st, args[0], Term{app("/", "1.0", x.S), SReal})
+		k(st, args[0], false)
 	}
 	externModels["(*math/big.Rat).SetString"] = func(ex *Exec, fr *Frame, callee *ssa.Function, args []Val, st *State, k CallCont) {
 		s := ex.toTerm(st, args[1], nil)
